@@ -571,6 +571,7 @@ type writeSet struct {
 	regions map[string]bool // region name prefixes
 	all     bool            // unknown writes: havoc every materialised region
 	ghosts  map[string]bool // ghost variables updated by at-clauses of calls in the analysed code
+	allocs  *writeSet       // regions initialised by allocations (&T{...}) in the analysed code
 }
 
 func newWriteSet() *writeSet {
